@@ -238,9 +238,16 @@ impl Move {
 
             if let Some(piece) = game.get_position(start) {
                 // This move is either en passant or normal
+                // A pawn capturing en passant stands on its fifth rank and lands on its sixth
+                let (en_passant_row, landing_row) = match game.current_player {
+                    Player::White => (4, 5),
+                    Player::Black => (3, 2),
+                };
                 return if piece.piece_type == PieceType::Pawn
                     && game.get_position(end).is_none()
                     && i8::abs(start.col() - end.col()) == 1
+                    && start.row() == en_passant_row
+                    && end.row() == landing_row
                 {
                     Some(Self::EnPassant {
                         owner: game.current_player,
